@@ -485,6 +485,10 @@ line_matches(dexpr_t root, const struct grep_atom_soa_s *ndl, char *line, size_t
 
 static uint64_t *c_forks;
 
+/* -i formats in force for the next run_expr()/run_dgrep() (NULL: none), as dgrep's main() sets them */
+static char *cur_fmt[2];
+static size_t cur_nfmt;
+
 static void
 run_expr(const char *expr, char lines[][40], int nlines, struct xres *r)
 {
@@ -522,6 +526,9 @@ run_expr(const char *expr, char lines[][40], int nlines, struct xres *r)
 		/* the expression in an exact-size heap block, as an argv string would be */
 		arg = malloc(l + 1);
 		memcpy(arg, expr, l + 1);
+		/* dgrep's main(): the -i formats also read the constants of the expression */
+		ckv_fmt = cur_nfmt ? cur_fmt : NULL;
+		ckv_nfmt = cur_nfmt;
 		shm->stage = ST_PARSE;
 		shm->parse_rc = dexpr_parse(&root, arg, l);
 		if (shm->parse_rc < 0 || root == NULL) {
@@ -532,7 +539,7 @@ run_expr(const char *expr, char lines[][40], int nlines, struct xres *r)
 		shm->stage = ST_SIMPLIFY;
 		dexpr_simplify(root);
 		shm->stage = ST_MATCH;
-		ndl = build_needle(nstk, countof(nstk), NULL, 0);
+		ndl = build_needle(nstk, countof(nstk), cur_nfmt ? cur_fmt : NULL, cur_nfmt);
 		for (int i = 0; i < nlines; i++) {
 			char lb[48];
 			int any;
@@ -1096,6 +1103,299 @@ do_pair(int ai, int bi, int disj, int replay)
 	return 1;
 }
 
+static int bind_common(const char *expr, char lines[][40], int nlines, const struct xres *rp, int inv, const char *cas, const char *what, double ord, int replay);
+
+/* ---- lines in every representation x every atom kind ---- */
+#define NRDAY	7
+static const int rday[NRDAY][3] = {{2012, 2, 28}, {2012, 2, 29}, {2012, 3, 1}, {2012, 3, 2}, {2012, 3, 5}, {2012, 12, 31}, {2013, 1, 1}};
+#define RREF	2	/* the constants of the atoms denote day 2 (2012-03-01, a Thursday, 10:00:00) */
+static struct rdinfo {
+	int y, m, d, wd, yday, isoy, isow, mcnt, bd;
+	long dnum;	/* days since 1970-01-01 */
+	int sec;	/* time of day used on lines that carry one */
+} rdi[NRDAY];
+
+static int
+c17_ylen(int y)
+{
+	return c17_leap(y) ? 366 : 365;
+}
+
+static void
+mk_rdays(void)
+{
+	for (int i = 0; i < NRDAY; i++) {
+		struct rdinfo *p = rdi + i;
+		int wk;
+		p->y = rday[i][0], p->m = rday[i][1], p->d = rday[i][2];
+		p->wd = c17_wday(p->y, p->m, p->d);
+		p->yday = p->d;
+		for (int mm = 1; mm < p->m; mm++) {
+			p->yday += c17_mlen(p->y, mm);
+		}
+		/* ISO 8601: the week with the year's first Thursday is week 1 */
+		wk = (p->yday - p->wd + 10) / 7;
+		p->isoy = p->y;
+		if (wk < 1) {
+			p->isoy = p->y - 1;
+			wk = (p->yday + c17_ylen(p->y - 1) - p->wd + 10) / 7;
+		} else if (wk == 53 && (p->yday - p->wd + 10 - c17_ylen(p->y)) / 7 >= 1) {
+			p->isoy = p->y + 1;
+			wk = 1;
+		}
+		p->isow = wk;
+		p->mcnt = (p->d - 1) / 7 + 1;
+		p->bd = 0;
+		for (int dd = 1; dd <= p->d; dd++) {
+			p->bd += c17_wday(p->y, p->m, dd) <= 5;
+		}
+		p->dnum = 0;
+		for (int yy = 1970; yy < p->y; yy++) {
+			p->dnum += c17_ylen(yy);
+		}
+		p->dnum += p->yday - 1;
+		p->sec = (9 + i % 3) * 3600;
+	}
+	/* anchors: 2012-03-01 = 2012-W09-4 = day 61 = 1330560000; 2012-12-31 = 2013-W01-1; 2012-02-29 = 21st business day */
+	if (rdi[2].isow != 9 || rdi[2].wd != 4 || rdi[2].yday != 61 || rdi[2].dnum * 86400L != 1330560000L ||
+	    rdi[5].isoy != 2013 || rdi[5].isow != 1 || rdi[5].wd != 1 || rdi[6].isow != 1 || rdi[1].bd != 21 || rdi[5].bd != 21 || rdi[4].bd != 3) {
+		fprintf(stderr, "c17: representation grid self-check failed\n");
+		exit(3);
+	}
+}
+
+enum { CAL_YMD, CAL_YWD, CAL_YMCW, CAL_YD, CAL_BIZDA, CAL_EPOCH, CAL_NONE };
+struct repr {
+	const char *label;
+	const char *fmt;	/* -i format or NULL */
+	int has_date, has_time;
+	int cal;		/* the calendar the value is held in */
+	const char *cls;	/* class of lines for the key: held calendar, with/without time, read with -i or not */
+};
+enum { RP_YMD, RP_YWD, RP_YMCW, RP_YD, RP_YD_FMT, RP_BIZDA, RP_EPOCH, RP_YMD_T, RP_YWD_T, RP_TIME, RP_DMY, RP_COMPACT, RP_COMPACT_RUN, RP_DBY, NREPR };
+static const struct repr reprs[NREPR] = {
+	{"ymd", NULL, 1, 0, CAL_YMD, "ymd dates"}, {"ywd", NULL, 1, 0, CAL_YWD, "ywd dates"}, {"ymcw", NULL, 1, 0, CAL_YMCW, "ymcw dates"},
+	{"yd", NULL, 1, 0, CAL_YD, "yd dates"}, {"yd read with -i %Y-%j", "%Y-%j", 1, 0, CAL_YD, "yd dates read with -i"},
+	{"bizda read with -i %Y-%m-%db", "%Y-%m-%db", 1, 0, CAL_BIZDA, "bizda dates read with -i"}, {"epoch read with -i %s", "%s", 1, 1, CAL_EPOCH, "epoch stamps read with -i"},
+	{"ymd date-time", NULL, 1, 1, CAL_YMD, "ymd date-times"}, {"ywd date-time", NULL, 1, 1, CAL_YWD, "ywd date-times"},
+	{"time only", NULL, 0, 1, CAL_NONE, "times without a date"}, {"dmy read with -i %d/%m/%Y", "%d/%m/%Y", 1, 0, CAL_YMD, "ymd dates read with -i"},
+	{"compact read with -i %Y%m%d", "%Y%m%d", 1, 0, CAL_YMD, "ymd dates read with -i"},
+	{"compact behind a digit run read with -i %Y%m%d", "%Y%m%d", 1, 0, CAL_YMD, "ymd dates read with -i"}, {"dby read with -i %d%b%Y", "%d%b%Y", 1, 0, CAL_YMD, "ymd dates read with -i"},
+};
+
+static void
+repr_line(char *buf, size_t bsz, int rp, int i)
+{
+	const struct rdinfo *p = rdi + i;
+	static const char *const mon[13] = {"", "Jan", "Feb", "Mar", "Apr", "May", "Jun", "Jul", "Aug", "Sep", "Oct", "Nov", "Dec"};
+	int H = p->sec / 3600;
+	switch (rp) {
+	case RP_YMD: snprintf(buf, bsz, "%04d-%02d-%02d", p->y, p->m, p->d); break;
+	case RP_YWD: snprintf(buf, bsz, "%04d-W%02d-%d", p->isoy, p->isow, p->wd); break;
+	case RP_YMCW: snprintf(buf, bsz, "%04d-%02d-%02d-%02d", p->y, p->m, p->mcnt, p->wd); break;
+	case RP_YD:
+	case RP_YD_FMT: snprintf(buf, bsz, "%04d-%03d", p->y, p->yday); break;
+	case RP_BIZDA: snprintf(buf, bsz, "%04d-%02d-%02db", p->y, p->m, p->bd); break;
+	case RP_EPOCH: snprintf(buf, bsz, "%ld", p->dnum * 86400L + p->sec); break;
+	case RP_YMD_T: snprintf(buf, bsz, "%04d-%02d-%02dT%02d:00:00", p->y, p->m, p->d, H); break;
+	case RP_YWD_T: snprintf(buf, bsz, "%04d-W%02d-%dT%02d:00:00", p->isoy, p->isow, p->wd, H); break;
+	case RP_TIME: snprintf(buf, bsz, "%02d:00:00", H); break;
+	case RP_DMY: snprintf(buf, bsz, "%02d/%02d/%04d", p->d, p->m, p->y); break;
+	case RP_COMPACT: snprintf(buf, bsz, "%04d%02d%02d", p->y, p->m, p->d); break;
+	case RP_COMPACT_RUN: snprintf(buf, bsz, "x 1 %04d%02d%02d", p->y, p->m, p->d); break;
+	case RP_DBY: snprintf(buf, bsz, "%02d%s%04d", p->d, mon[p->m], p->y); break;
+	}
+}
+
+/* atoms of the grid: constants denote the reference day / 10:00:00 */
+enum { RA_Y, RA_M, RA_D, RA_J, RA_A, RA_C, RA_G, RA_YY, RA_DATE_YMD, RA_DATE_YWD, RA_DATE_YD, RA_EPOCH, RA_DT, RA_TIME, NRATOM };
+struct ratom {
+	const char *label, *lhs, *val;
+	int needs_date, needs_time;	/* what the line must carry for the atom to have a value */
+	int names;			/* only = and != */
+	int cal;			/* calendar of the constant, -1: a specifier atom */
+	const char *cls;		/* class of atoms for the key */
+};
+static const struct ratom ratoms[NRATOM] = {
+	{"%Y", "%Y", "2012", 1, 0, 0, -1, "specifier of %Y %m %d %j %a %c"}, {"%m", "%m", "3", 1, 0, 0, -1, "specifier of %Y %m %d %j %a %c"},
+	{"%d", "%d", "1", 1, 0, 0, -1, "specifier of %Y %m %d %j %a %c"}, {"%j", "%j", "61", 1, 0, 0, -1, "specifier of %Y %m %d %j %a %c"},
+	{"%a", "%a", "\"Thu\"", 1, 0, 1, -1, "specifier of %Y %m %d %j %a %c"}, {"%c", "%c", "1", 1, 0, 0, -1, "specifier of %Y %m %d %j %a %c"},
+	{"%G", "%G", "2012", 1, 0, 0, -1, "specifier %G"}, {"%y", "%y", "12", 1, 0, 0, -1, "specifier %y"},
+	{"date constant ymd", "", "2012-03-01", 1, 0, 0, CAL_YMD, "date constant"}, {"date constant ywd", "", "2012-W09-4", 1, 0, 0, CAL_YWD, "date constant"},
+	{"date constant yd", "", "2012-061", 1, 0, 0, CAL_YD, "date constant"},
+	{"date-time constant epoch", "", "@1330596000", 1, 1, 0, CAL_EPOCH, "date-time constant"}, {"date-time constant", "", "2012-03-01T10:00:00", 1, 1, 0, CAL_YMD, "date-time constant"},
+	{"time constant", "", "10:00:00", 0, 1, 0, -1, "time constant"},
+};
+
+/* -1 below, 0 equal, +1 above: the line's value against the atom's constant; 2: not judged (reading) */
+static int
+ratom_cmp(int ai, int rp, int i)
+{
+	const struct rdinfo *p = rdi + i, *q = rdi + RREF;
+	long a, b;
+	switch (ai) {
+	case RA_Y: a = p->y, b = 2012; break;
+	case RA_M: a = p->m, b = 3; break;
+	case RA_D: a = p->d, b = 1; break;
+	case RA_J: a = p->yday, b = 61; break;
+	case RA_A: a = p->wd, b = 4; break;
+	case RA_C: a = p->mcnt, b = 1; break;
+	case RA_G: a = p->isoy, b = 2012; break;
+	case RA_YY: a = p->y % 100, b = 12; break;
+	case RA_DATE_YMD:
+	case RA_DATE_YWD:
+	case RA_DATE_YD:
+		/* a date constant against a line with a time of day: same day = equal or = midnight? not stated */
+		if (reprs[rp].has_time && p->dnum == q->dnum) {
+			return 2;
+		}
+		a = p->dnum, b = q->dnum;
+		break;
+	case RA_EPOCH:
+	case RA_DT:
+		a = p->dnum * 86400L + p->sec, b = q->dnum * 86400L + 36000L;
+		break;
+	default:
+		a = p->sec, b = 36000L;
+		break;
+	}
+	return a < b ? -1 : a > b;
+}
+
+static int
+do_repr(int rp, int ai, int oi, int replay)
+{
+	const struct ratom *a = ratoms + ai;
+	const struct aop *o = aops + oi;
+	char expr[96], key[240], cas[64], cmd[400], kb[96];
+	char lines[32][40];
+	struct xres r;
+	uint32_t want = 0, judged = 0;
+	const char *kind = NULL;
+	int lacks = (a->needs_date && !reprs[rp].has_date) || (a->needs_time && !reprs[rp].has_time);
+	EX_CTR(c_rep, "representation_cases");
+	EX_CTR(c_sk1, "skipped:!= on lines that lack the component the atom compares (whether that is true is not stated)");
+	EX_CTR(c_sk2, "skipped:a date-time constant against lines without a time of day (not stated)");
+	EX_CTR(c_sk3, "skipped:a date constant against the same day with a time of day (equal or midnight: not stated)");
+
+	if (a->names && o->ordering) {
+		return 0;
+	}
+	if (lacks && a->needs_date && a->needs_time) {
+		/* date-time constants against date-only or time-only lines */
+		++*c_sk2;
+		return 0;
+	}
+	if (lacks && oi == 1) {
+		++*c_sk1;
+		return 0;
+	}
+	snprintf(expr, sizeof(expr), "%s%s%s", a->lhs, o->txt, a->val);
+	for (int i = 0; i < NRDAY; i++) {
+		int c;
+		repr_line(lines[i], sizeof(lines[i]), rp, i);
+		if (lacks) {
+			/* no value of that kind in the line: nothing for which the atom is true */
+			judged |= 1U << i;
+			continue;
+		}
+		if ((c = ratom_cmp(ai, rp, i)) == 2) {
+			++*c_sk3;
+			continue;
+		}
+		judged |= 1U << i;
+		want |= (uint32_t)op_truth(o, c) << i;
+	}
+	cur_nfmt = 0;
+	if (reprs[rp].fmt) {
+		static char fb[32];
+		snprintf(fb, sizeof(fb), "%s", reprs[rp].fmt);
+		cur_fmt[0] = fb;
+		cur_nfmt = 1;
+	}
+	run_expr(expr, lines, NRDAY, &r);
+	cur_nfmt = 0;
+	++*c_eval;
+	++*c_rep;
+	*c_states += NRDAY;
+	*c_trans += NRDAY;
+	if (!r.died && r.parse_rc >= 0) {
+		++*c_traces;
+	}
+	ex_outcome(ex_hash_mix(ex_hash(expr, strlen(expr)), r.sel ^ ((uint64_t)rp << 20) ^ ((uint64_t)r.stage << 28)));
+	if (replay) {
+		printf("  '%s'%s%s on the 7 days written as %s ('%s' .. '%s'): parse rc %d, stage %s, selected %02x, expected %02x (judged lines %02x)\n", expr,
+		       reprs[rp].fmt ? " with -i " : "", reprs[rp].fmt ? reprs[rp].fmt : "", reprs[rp].label, lines[0], lines[NRDAY - 1], r.parse_rc, stage_name[r.stage],
+		       r.sel & judged, want, judged);
+	}
+	if (r.hang) {
+		kind = "hang";
+	} else if (r.parse_rc < 0) {
+		kind = "parse error";
+	} else if (r.asan_hits) {
+		snprintf(kb, sizeof(kb), "asan %s in %s", r.asan_desc, stage_name[r.asan_stage]);
+		kind = kb;
+	} else if (r.died) {
+		snprintf(kb, sizeof(kb), "died in %s", stage_name[r.stage]);
+		kind = kb;
+	} else if (reprs[rp].has_date && (r.nodate & ((1U << NRDAY) - 1U)) == (1U << NRDAY) - 1U && (r.sel & judged) != want) {
+		kind = "the date in the line is not found";
+	} else if ((r.sel & judged) != want) {
+		kind = lacks ? "selects lines that lack the component" : "wrong selection";
+	}
+	if (kind == NULL) {
+		return 0;
+	}
+	if (!strcmp(kind, "the date in the line is not found")) {
+		/* nothing to do with the atom */
+		snprintf(key, sizeof(key), "repr: %s | %s", kind, reprs[rp].label);
+	} else if (ai == RA_G || ai == RA_YY) {
+		/* folded into the 4-digit calendar year whatever the line */
+		snprintf(key, sizeof(key), "repr: %s | %s", kind, a->cls);
+	} else if (a->cal >= 0) {
+		snprintf(key, sizeof(key), "repr: %s | %s | %s written in %s calendar", kind, reprs[rp].cls, a->cls, a->cal == reprs[rp].cal ? "the same" : "another");
+	} else {
+		snprintf(key, sizeof(key), "repr: %s | %s | %s", kind, reprs[rp].cls, a->cls);
+	}
+	snprintf(cas, sizeof(cas), "repr %d %d %d", rp, ai, oi);
+	snprintf(cmd, sizeof(cmd), "printf '%%s\\n' '%s' '%s' '%s' '%s' '%s' '%s' '%s' | dgrep %s%s%s'%s'", lines[0], lines[1], lines[2], lines[3], lines[4], lines[5], lines[6],
+		 reprs[rp].fmt ? "-i '" : "", reprs[rp].fmt ? reprs[rp].fmt : "", reprs[rp].fmt ? "' " : "", expr);
+	ex_viol(key, (double)(ai * 6 + oi), cas, cmd, "'%s' on the days 2012-02-28, 02-29, 03-01, 03-02, 03-05, 12-31, 2013-01-01 written as %s (e.g. '%s'): %s; selected %02x, "
+		"expected %02x of the judged lines %02x (bit i = day i)", expr, reprs[rp].label, lines[RREF], kind, r.sel & judged, want, judged);
+	return 1;
+}
+
+static int
+do_bind_repr(int rp, int ai, int oi, int inv, int replay)
+{
+	const struct ratom *a = ratoms + ai;
+	char expr[96], cas[64], what[96];
+	char lines[32][40];
+	struct xres r;
+	int rc;
+
+	if (a->names && aops[oi].ordering) {
+		return 0;
+	}
+	snprintf(expr, sizeof(expr), "%s%s%s", a->lhs, aops[oi].txt, a->val);
+	for (int i = 0; i < NRDAY; i++) {
+		repr_line(lines[i], sizeof(lines[i]), rp, i);
+	}
+	cur_nfmt = 0;
+	if (reprs[rp].fmt) {
+		static char fb[32];
+		snprintf(fb, sizeof(fb), "%s", reprs[rp].fmt);
+		cur_fmt[0] = fb;
+		cur_nfmt = 1;
+	}
+	run_expr(expr, lines, NRDAY, &r);
+	snprintf(cas, sizeof(cas), "bindrepr %d %d %d %d", rp, ai, oi, inv);
+	snprintf(what, sizeof(what), "7 days written as %s", reprs[rp].label);
+	rc = bind_common(expr, lines, NRDAY, &r, inv, cas, what, (double)rp, replay);
+	cur_nfmt = 0;
+	return rc;
+}
+
 /* ---- binding through the dgrep binary ---- */
 static int
 run_dgrep(const char *expr, int inv, const char *infile, char *out, size_t osz, int *sig)
@@ -1107,7 +1407,13 @@ run_dgrep(const char *expr, int inv, const char *infile, char *out, size_t osz, 
 	size_t n = 0;
 
 	snprintf(fout, sizeof(fout), "%s/c17b.%d.out", rundir ? rundir : "/tmp", (int)getpid());
-	snprintf(cmd, sizeof(cmd), "exec '%s/src/dgrep' %s'%s' < '%s' > '%s' 2>/dev/null", ex.tree, inv ? "-v " : "", expr, infile, fout);
+	{
+		char io[96] = "";
+		for (size_t i = 0; i < cur_nfmt; i++) {
+			snprintf(io + strlen(io), sizeof(io) - strlen(io), "-i '%s' ", cur_fmt[i]);
+		}
+		snprintf(cmd, sizeof(cmd), "exec '%s/src/dgrep' %s%s'%s' < '%s' > '%s' 2>/dev/null", ex.tree, io, inv ? "-v " : "", expr, infile, fout);
+	}
 	st = system(cmd);
 	*sig = WIFSIGNALED(st) ? WTERMSIG(st) : (WIFEXITED(st) && WEXITSTATUS(st) > 128) ? WEXITSTATUS(st) - 128 : 0;
 	if ((f = fopen(fout, "r"))) {
@@ -1292,6 +1598,7 @@ main(int argc, char *argv[])
 	}
 	maxn = bind ? 3 : ex.thorough ? 5 : 4;
 	mk_pairs();
+	mk_rdays();
 	gen_stacked(0, 3);
 	for (int n = 1; n <= 3; n++) {
 		gen_stacked(0, n);
@@ -1318,7 +1625,11 @@ main(int argc, char *argv[])
 	if (ex.cas) {
 		int set, mode, inv, fi, oi, neg, ai, bi, dj;
 		char tree[MAXT];
-		if (sscanf(ex.cas, "pair %d %d %d", &ai, &bi, &dj) == 3 && ai >= 0 && ai < npatoms && bi >= 0 && bi < npatoms) {
+		if (sscanf(ex.cas, "repr %d %d %d", &ai, &bi, &dj) == 3 && ai >= 0 && ai < NREPR && bi >= 0 && bi < NRATOM && dj >= 0 && dj < 6) {
+			return ex_replay_result(do_repr(ai, bi, dj, 1), "lines as %s, atom %s %s", reprs[ai].label, ratoms[bi].label, aops[dj].txt);
+		} else if (sscanf(ex.cas, "bindrepr %d %d %d %d", &ai, &bi, &dj, &inv) == 4 && ai >= 0 && ai < NREPR && bi >= 0 && bi < NRATOM && dj >= 0 && dj < 6) {
+			return ex_replay_result(do_bind_repr(ai, bi, dj, inv, 1), "binding lines as %s, atom %s %s", reprs[ai].label, ratoms[bi].label, aops[dj].txt);
+		} else if (sscanf(ex.cas, "pair %d %d %d", &ai, &bi, &dj) == 3 && ai >= 0 && ai < npatoms && bi >= 0 && bi < npatoms) {
 			return ex_replay_result(do_pair(ai, bi, dj, 1) || ex.nviol, "pair %s %s", patoms[ai].txt, patoms[bi].txt);
 		} else if (sscanf(ex.cas, "pair1 %d", &ai) == 1 && ai >= 0 && ai < npatoms) {
 			return ex_replay_result(!patom_alone_ok(ai), "atom %s on the grid", patoms[ai].txt);
@@ -1339,11 +1650,11 @@ main(int argc, char *argv[])
 
 	if (bind) {
 		ex_meta("rule", "binding: every tree with <= 3 leaves (leaf set A, both renderings), every tree with stacked negations (!!x, !(!x)) up to 2 leaves, every tree with <= 3 leaves of "
-			"leaf set C (bare time atom) and every ordered pair of atoms (29 atoms: 5 kinds x 6 operators + operator omitted, joined by && and ||) through the dgrep binary of the same build, without and with -v, "
+			"leaf set C (bare time atom), every (representation, atom, operator) of the representation grid (with its -i format) and every ordered pair of atoms (29 atoms: 5 kinds x 6 operators + operator omitted, joined by && and ||) through the dgrep binary of the same build, without and with -v, "
 			"on the 2^n lines; its output must equal the lines the in-process pipeline (dexpr.c by inclusion, forked child per expression) selects, "
 			"resp. their complement, and the binary must die iff the in-process child died; plus the CLI's line semantics on a single atom "
 			"(lines unchanged and in input order, a line matches if any of its dates does, -v = complement incl. lines without a date)");
-		ex_meta("bound", "274 trees x 2 renderings (set A) + 96 trees with stacked negations (<= 2 leaves) x 2 renderings + 274 trees of leaf set C + 1682 pairs of atoms, "
+		ex_meta("bound", "274 trees x 2 renderings (set A) + 96 trees with stacked negations (<= 2 leaves) x 2 renderings + 274 trees of leaf set C + 1176 representation cases + 1682 pairs of atoms, "
 			"each without and with -v (both tiers)");
 		ex_meta("binding", "dgrep binary of the same (plain) build vs the in-process pipeline");
 		{
@@ -1401,6 +1712,21 @@ main(int argc, char *argv[])
 					}
 				}
 			}
+			for (int rp = 0; rp < NREPR && !ex_expired(); rp++) {
+				for (int ai = 0; ai < NRATOM; ai++) {
+					for (int oi = 0; oi < 6; oi++) {
+						for (int inv = 0; inv < 2; inv++, id++) {
+							if (ex_mine(id)) {
+								do_bind_repr(rp, ai, oi, inv, 0);
+								++*c_eval;
+								++*c_traces;
+								*c_states += NRDAY;
+								*c_trans += NRDAY;
+							}
+						}
+					}
+				}
+			}
 			for (int ai = 0; ai < npatoms && !ex_expired(); ai++) {
 				for (int bi = 0; bi < npatoms; bi++) {
 					for (int dj = 0; dj < 2; dj++) {
@@ -1435,10 +1761,16 @@ main(int argc, char *argv[])
 		"Stacked negations: every tree up to 3 leaves with 0..2 negations on an inner node and 0..3 on a leaf, written !!x (minimal) and !(!(x)) (full). "
 		"Pairs: 29 atoms (year, weekday name, date, time, date-time bound x = != < <= > >= and operator omitted) in every ordered pair joined by && and ||, on a "
 		"grid of 5 dates x 3 times, oracle = comparison semantics of each atom on each line (pairs with an atom that fails alone are skipped, the atom is reported). "
+		"Representations: 7 days (around 2012-03-01 and the year end) written as ymd, ywd, ymcw, yd, yd/-i %%Y-%%j, bizda/-i, epoch/-i %%s, ymd and ywd date-times, "
+		"time only, dmy/-i, compact/-i %%Y%%m%%d (also behind another digit run), dby/-i %%d%%b%%Y x 14 atoms (%%Y %%m %%d %%j %%a %%c %%G %%y, date constants written as "
+		"ymd, ywd, yd, date-time constants as @epoch and ISO, a time constant) x 6 operators; oracle: the day's calendar fields (own day count, ISO week rule, "
+		"self-checked on anchors) compared with the constant; a line that lacks the component (time-only line for a date atom, date-only line for a time atom) must "
+		"not be selected by = < <= > >= (!= skipped: not stated); a date constant against the same day carrying a time of day and date-time constants against lines "
+		"without a time are skipped (not stated). With -i the formats also read the expression's constants, as dgrep's main() arranges. "
 		"Atom semantics: %d fields x %d operator spellings x plain/negated x lines at every distance -3..+3 from the constant, own keys (kind, operator, distance); "
 		"ordering operators on weekday/month names skipped (no order stated).", NAFIELD, NAOP);
 	ex_meta("bound", "trees with 1..%d leaves: %s (set A) + 1..4 leaves (set B) + 1..%d leaves (set C), x 2 renderings; blank-separated rendering up to 2 leaves; "
-		"stacked negations: all 4+96 trees up to 2 leaves, with 3 leaves %s; 1682 pairs; %d atom cases x 7 distances",
+		"stacked negations: all 4+96 trees up to 2 leaves, with 3 leaves %s; 1682 pairs; 14 representations x 14 atoms x 6 operators; %d atom cases x 7 distances",
 		maxn, maxn == 5 ? "2+16+256+5120+114688" : "2+16+256+5120", ex.thorough ? 4 : 3,
 		ex.thorough ? "all 4608" : "the 640 with one doubled negation", NAFIELD * NAOP * 2);
 
@@ -1450,6 +1782,19 @@ main(int argc, char *argv[])
 				for (int neg = 0; neg < 2; neg++, id++) {
 					if (ex_mine(id)) {
 						do_atom(fi, oi, neg, 0);
+					}
+				}
+			}
+		}
+		/* lines in every representation x every atom kind x operator */
+		for (int rp = 0; rp < NREPR && !ex_expired(); rp++) {
+			for (int ai = 0; ai < NRATOM; ai++) {
+				for (int oi = 0; oi < 6; oi++, id++) {
+					if (ex_mine(id)) {
+						do_repr(rp, ai, oi, 0);
+						if (ex_want_sample()) {
+							ex_sample("atom '%s%s%s' on 7 days written as %s", ratoms[ai].lhs, aops[oi].txt, ratoms[ai].val, reprs[rp].label);
+						}
 					}
 				}
 			}
